@@ -588,6 +588,22 @@ func (r *renderer) expandRaw(s string) string {
 				out.WriteString("yield(" + r.expandRaw(a) + ")")
 			}
 			i += n
+		} else if strings.HasPrefix(rest, "$YIELDT{") || strings.HasPrefix(rest, "$YFROMT{") {
+			// explicitly instantiated API call: Yield[T](e) / YieldFrom[T](e)
+			isFrom := strings.HasPrefix(rest, "$YFROMT{")
+			ty, p1, _ := argAt(rest, 7)
+			e, p2, _ := argAt(rest, p1)
+			switch {
+			case r.mode == "S" && isFrom:
+				out.WriteString(r.co + "YieldFrom[" + r.expandRaw(ty) + "](" + r.expandRaw(e) + ")")
+			case r.mode == "S":
+				out.WriteString(r.co + "Yield[" + r.expandRaw(ty) + "](" + r.expandRaw(e) + ")")
+			case isFrom:
+				out.WriteString("ref.From(yield, " + r.expandRaw(e) + ")")
+			default:
+				out.WriteString("yield(" + r.expandRaw(e) + ")")
+			}
+			i += p2
 		} else if a, n, ok := arg("$YFROM"); ok {
 			if r.mode == "S" {
 				out.WriteString(r.co + "YieldFrom(" + r.expandRaw(a) + ")")
